@@ -47,7 +47,7 @@ pub fn space_text(prop: u8) -> &'static str {
         8 => "all 2^n keep-masks of retain and retain_mut (with two rewrites) over n <= 8 elements, 3 priority patterns, both kinds",
         9 => "all next/next_back/probe call programs of length <= 7 on iter_mut() and (&mut q).into_iter() over n <= 4 elements, with and without priority rewrites, both kinds",
         11 => "push_increase / push_decrease x 7 offered-priority classes x every target position x n <= 6 x 3 priority patterns x both kinds",
-        13 => "all call programs of length <= 6 on iter/&q/into_iter/drain/sorted over n <= 4, and all 34 adaptor compositions x arguments 0..=n+2 x 6 iterator kinds x n <= 4, both kinds",
+        13 => "all call programs of length <= 6 on iter/&q/into_iter/drain/sorted over n <= 4, and all 40 adaptor compositions x arguments 0..=n+2 x 6 iterator kinds x n <= 4, both kinds",
         _ => "",
     }
 }
